@@ -216,6 +216,13 @@ func checkC06(run *mon.Run, rng *mon.Rand, thorough bool) {
 func c06Random(run *mon.Run, rng *mon.Rand, length int, sample bool) {
 	e := newL2Env(L2EnvOpts{})
 	e.L2.Speculate = rng.Bool() // half of the schedules: every transaction runs first on a throw-away branch (CheckTx)
+	if rng.Bool() {
+		// the bank module already knows the bridged uusdc (metadata from bank genesis or set by another module)
+		d := e.L2Denom("uusdc")
+		e.L2.BK.SetDenomMetaData(e.L2.Ctx, banktypes.Metadata{Base: d, Display: "usdc", Name: "pre-registered", Symbol: "USDC",
+			DenomUnits: []*banktypes.DenomUnit{{Denom: d, Exponent: 0}, {Denom: "usdc", Exponent: 6}}})
+		run.Count("C06.schedules_with_preexisting_bank_metadata")
+	}
 	c := &c06{run: run, stranger: sim.NewAccount("stranger1")}
 	nDeps := length/3 + 10
 	c.deps = mkDeposits(e, nDeps)
